@@ -100,6 +100,15 @@ package slug
 //@       segUnder(ite(isAbs(a1.Linkname), Clean(a1.Linkname),
 //@                    Join(Dir(ite(isAbs(Replace(path, src, dst, 1)), Replace(path, src, dst, 1), Join(Abs(root), Replace(path, src, dst, 1)))), a1.Linkname)), Abs(root))
 //@   at-call (*archive/tar.Writer).WriteHeader C05,C02.header-name: a1.Name == Rel(root, Replace(path, src, dst, 1)) + ite(modeDirBit(fileMode(info)), "/", "")
+//@   at-call (*archive/tar.Writer).WriteHeader C02.header-kind: (modeDirBit(fileMode(info)) ==> a1.Typeflag == tar.TypeDir && a1.Size == 0)
+//@       && (modeRegular(fileMode(info)) ==> a1.Typeflag == tar.TypeReg && a1.Size == fileSize(info) && a1.Mode == imod(fileMode(info), 512))
+//@       && (a1.Typeflag == tar.TypeSymlink ==> modeSymlinkBit(fileMode(info)) && a1.Size == 0)
+//@       && (a1.Typeflag == tar.TypeDir ==> a1.Mode == imod(fileMode(info), 512))
+//@       && (a1.Typeflag == tar.TypeReg && !modeRegular(fileMode(info)) ==> modeSymlinkBit(fileMode(info)) && p.dereference && resolved != nil
+//@             && a1.Size == fileSize(resolved.info) && a1.Mode == imod(fileMode(resolved.info), 512))
+//@       && (a1.Typeflag == tar.TypeDir || a1.Typeflag == tar.TypeReg || a1.Typeflag == tar.TypeSymlink)
+//@   ensures C02.body-iff-regular: err == nil && rerr == nil && modeRegular(fileMode(info)) && !excl(ignoreRules, Rel(src, path)) && Rel(src, path) != "." && Rel(root, Replace(path, src, dst, 1)) != "." ==> $copied
+//@   ghost $copied Bool = false
 //@   at-call os.Open C05.body-from-inside: segUnder(Clean(a0), Clean(src))
 //@   ensures C05.external-needs-deref: $rejected && !p.dereference && !AbsErr(root) ==> dyntype(rerr, "*slug.IllegalSlugError")
 //@   decreases C19.terminates: maxExternalLinkHops - len(dereferenced)
